@@ -150,7 +150,8 @@ def check_case(ctx, case, max_runs):
                 ctx.count("boundary_tie_valueerror")
                 continue
             ctx.fail(f"{cfg['rule']}: valid profile rejected with {out.etype}", c2,
-                     {"msg": str(out.exc)[:200], "tag": case.get("tag")})
+                     {"msg": str(out.exc)[:200], "tag": case.get("tag")},
+                     mech=oracle.classify(cfg, cands, ballots, out.etype) if "has no scores" in str(out.exc) else None)
             continue
         ctx.count("accepted")
         if case.get("tag") in ("on_L", "on_k"):
